@@ -28,10 +28,11 @@ Record pub_obs := {
 Definition subs_of (n : str) (c : rcase) : list lsub :=
   match aget n (rc_nodes c) with Some l => l | None => [] end.
 
-(* a subscription matches a topic exactly as the local broker decides it: MQTT 4.7 for a
-   non-shared filter (incl. the '$' rule), level-wise for the filter of a shared one *)
+(* a subscription matches a topic exactly as the local broker decides it: MQTT 4.7 incl. the
+   '$' rule [MQTT-4.7.2-1], for a non-shared filter and for the filter of a shared one alike
+   (since the repair 8c233d3; before it the filter of a shared one was matched level-wise only) *)
 Definition lsub_match (t : str) (s : lsub) : bool :=
-  let '(_, g, f) := s in if is_empty g then topic_match t f else lm (split t) (split f).
+  let '(_, _, f) := s in topic_match t f.
 
 Definition has_plain (t : str) (l : list lsub) : bool :=
   existsb (fun s : lsub => is_empty (snd (fst s)) && lsub_match t s) l.
